@@ -146,7 +146,9 @@ class Gen:
 
 BADS = [("[abc", "ECONF_MISSING_BRACKET"), ("[abc] x", "ECONF_TEXT_AFTER_SECTION"), ("[]", "ECONF_EMPTY_SECTION_NAME"),
         ("[ ]x", "ECONF_TEXT_AFTER_SECTION"), ("  [ab cd", "ECONF_MISSING_BRACKET"),
-        ("[a]]b", "ECONF_TEXT_AFTER_SECTION")]
+        ("[a]]b", "ECONF_TEXT_AFTER_SECTION"),
+        # a carriage return in the MIDDLE of a line is a blank like any other: what follows it is still part of the line
+        ("[abc]\rx=1", "ECONF_TEXT_AFTER_SECTION"), ("[ab\rcd", "ECONF_MISSING_BRACKET")]
 
 
 def random_file(r, maxlines, opt="none", bad_rate=0.0, single_line=False, comment_heavy=False, D=None, C=None):
@@ -170,6 +172,7 @@ def random_file(r, maxlines, opt="none", bad_rate=0.0, single_line=False, commen
             cand = list(BADS)
             if g.cls == "NONBLANK" and (prev is None or prev["t"] not in ("entry", "cont")):
                 cand.append(("key text", "ECONF_MISSING_DELIMITER"))
+                cand.append(("key\rtext", "ECONF_MISSING_DELIMITER"))
             raw, code = r.choice(cand)
             # text after the header of the section that is OPEN at this point (a header that re-opens the current section
             # is a header like any other)
